@@ -531,13 +531,29 @@ func (fv *FV) evalCall(e *Expr, env *Env) Val {
 		return Val{T: fmt.Sprintf("(ityp %s)", arg(0).T), S: "Int"}
 	case "payload":
 		return Val{T: fmt.Sprintf("(ival %s)", arg(0).T), S: "Int"}
+	case "external":
+		// external(x): the dynamic type of x is none of the library's own implementors
+		x := arg(0)
+		iface, ok := x.Typ.Underlying().(*types.Interface)
+		if !ok {
+			fv.specErr("external() of non-interface")
+		}
+		parts := []string{fmt.Sprintf("(not (= (ityp %s) 0))", x.T)}
+		for _, c := range fv.eng.implementors(iface) {
+			parts = append(parts, fmt.Sprintf("(not (= (ityp %s) %d))", x.T, fv.u.typeID(c)))
+		}
+		return Val{T: "(and " + strings.Join(parts, " ") + ")", S: "Bool"}
+	case "cast":
+		// cast("*pkg.T", x): view an interface payload or a ghost ref as a typed pointer
+		t := fv.parseTypeName(e.Args[0].Name)
+		x := arg(1)
+		if x.S == "Iface" {
+			return Val{T: fmt.Sprintf("(ival %s)", x.T), S: "Int", Typ: t}
+		}
+		return Val{T: x.T, S: "Int", Typ: t}
 	case "typeid":
 		// typeid("*bytes.Buffer")
-		id, ok := fv.eng.typeIDByName(e.Args[0].Name)
-		if !ok {
-			fv.specErr("unknown type name %q", e.Args[0].Name)
-		}
-		return Val{T: fmt.Sprint(id), S: "Int"}
+		return Val{T: fmt.Sprint(fv.u.typeID(fv.parseTypeName(e.Args[0].Name))), S: "Int"}
 	case "isNaN":
 		return Val{T: fmt.Sprintf("(fp.isNaN %s)", arg(0).T), S: "Bool"}
 	case "fpeq":
@@ -610,6 +626,36 @@ func (fv *FV) evalCall(e *Expr, env *Env) Val {
 			t = fmt.Sprintf("(sref %s)", x.T)
 		}
 		return Val{T: fmt.Sprintf("(> %s %s)", t, env.old.alloc), S: "Bool"}
+	case "allocatedAfter":
+		x, y := arg(0), arg(1)
+		tx, ty := x.T, fv.asTermSpec(env, y).T
+		if x.S == "Slice" {
+			tx = fmt.Sprintf("(sref %s)", x.T)
+		}
+		if y.S == "Slice" {
+			ty = fmt.Sprintf("(sref %s)", y.T)
+		}
+		return Val{T: fmt.Sprintf("(or (= %s 0) (> %s %s))", tx, tx, ty), S: "Bool"}
+	case "freshOrNil":
+		x := arg(0)
+		t := x.T
+		if x.S == "Slice" {
+			t = fmt.Sprintf("(sref %s)", x.T)
+		}
+		return Val{T: fmt.Sprintf("(or (= %s 0) (> %s %s))", t, t, env.old.alloc), S: "Bool"}
+	case "sameOrFresh":
+		// sameOrFresh(s): backing array of s is the one it had at entry, or allocated since
+		x := arg(0)
+		n := *env
+		n.st = env.old
+		n.names = env.old.fr.names
+		o := fv.evalSpec(e.Args[0], &n)
+		t, ot := x.T, o.T
+		if x.S == "Slice" {
+			t = fmt.Sprintf("(sref %s)", x.T)
+			ot = fmt.Sprintf("(sref %s)", o.T)
+		}
+		return Val{T: fmt.Sprintf("(or (= %s %s) (> %s %s))", t, ot, t, env.old.alloc), S: "Bool"}
 	case "mapHas":
 		m, k := arg(0), arg(1)
 		mt := m.Typ.Underlying().(*types.Map)
